@@ -241,7 +241,8 @@ def case_2ax(W, cfg):
                     fill = {"X": fx, "Y": gfill}
                 kw["to"] = {ax: sh[ax][1] for ax in axes}
                 lab = "%s:%s:%s:%s" % (op, sh["X"], sh["Y"], variant)
-                r = getattr(grid, op)(da, cfg["axorder"], **kw)
+                # "several axes" may be named by a list or by a tuple
+                r = getattr(grid, op)(da, tuple(cfg["axorder"]) if cfg["swap"] else list(cfg["axorder"]), **kw)
                 cur = a
                 cur_dims = list(order)
                 for ax in cfg["axorder"]:
